@@ -6,6 +6,7 @@ package rtsp
 
 import (
 	"bufio"
+	"errors"
 	"fmt"
 	"io"
 	"sort"
@@ -266,15 +267,28 @@ func (h Header) sortedKeyValues() (kvs []keyValues, hs *headerSorter) {
 	return kvs, hs
 }
 
-// readLine 读取一行
-func readLine(r *bufio.Reader) (string, error) {
-	const maxLineLenght = 16 * 1024
+// 单行（请求行、状态行、头部域行）和消息体允许的最大长度；
+// 超过限制的输入被拒绝，避免无限制地缓冲对端数据。
+const (
+	maxLineLength = 16 * 1024
+	maxBodyLength = 1024 * 1024
+)
 
+var (
+	errLineTooLong = errors.New("rtsp: line over the maximum length")
+	errBodyTooLong = errors.New("rtsp: Content-Length over the maximum length")
+)
+
+// readLine 读取一行；行长度（不含行结束符）超过 maxLineLength 返回错误
+func readLine(r *bufio.Reader) (string, error) {
 	var line []byte
 	for {
 		l, more, err := r.ReadLine()
 		if err != nil {
 			return "", err
+		}
+		if len(line)+len(l) > maxLineLength {
+			return "", errLineTooLong
 		}
 		// Avoid the copy if the first call produced a full line.
 		if line == nil && !more {
@@ -284,11 +298,29 @@ func readLine(r *bufio.Reader) (string, error) {
 		if !more {
 			break
 		}
-		// if len(line) >maxLineLenght {
-		// 	return string(line),errors.New("line over the maximum length")
-		// }
 	}
 	return string(line), nil
+}
+
+// readBody 读取 Content-Length 指定长度的消息体
+func readBody(r *bufio.Reader, h Header) (string, error) {
+	cl := h.Int(FieldContentLength)
+	if cl <= 0 {
+		return "", nil
+	}
+	if cl > maxBodyLength {
+		return "", errBodyTooLong
+	}
+
+	// 读取 n 字节的字串Body
+	body := make([]byte, cl)
+	if _, err := io.ReadFull(r, body); err != nil {
+		if err == io.EOF {
+			err = io.ErrUnexpectedEOF
+		}
+		return "", err
+	}
+	return string(body), nil
 }
 
 var headerNewlineToSpace = strings.NewReplacer("\n", " ", "\r", " ")
